@@ -10,7 +10,8 @@ from ..common import d42  # noqa: F401
 from d42.generation import Random, RegexGenerator
 
 MODULE = "D42.Props.C09"
-THEOREMS = []
+THEOREMS = ["genSeq_sound", "genRe_sound", "genAlt_sound", "genRe_unsup", "genClsItem_unsup", "rep_request",
+            "genSeq_error_kind", "genNotIn_sound", "genClsItem_sound", "repeatG_sound"]
 FILES = ["D42/Model/Data.lean", "D42/Model/Gen.lean", "D42/Gen/Consts.lean", "D42/Props/C09.lean"]
 
 EVIDENCE = dict(
@@ -109,7 +110,7 @@ def run(ctx):
                 pass
     reqs, exp, info = [], [], []
     for p, unsup in pats:
-        for pol in ("lo", "hi", "alt", "alt2", "rnd"):
+        for pol in ("lo", "hi", "alt", "alt2", "rnd", "cmax", "cmin"):
             (k, v), log = generate(p, SR.make_policy(pol, ctx.rnd))
             ndraws = len(log)
             ctx.case((p, pol), ndraws > 0)
